@@ -14,6 +14,7 @@ pub mod c11;
 pub mod c12;
 pub mod c13;
 pub mod c14;
+pub mod c17;
 pub mod c18;
 pub mod c19;
 
@@ -31,10 +32,11 @@ pub fn run(prop: &str, args: &Args) -> i32 {
         "C12" => c12::run(args),
         "C13" => c13::run(args),
         "C14" => c14::run(args),
+        "C17" => c17::run(args),
         "C18" => c18::run(args),
         "C19" => c19::run(args),
         _ => {
-            eprintln!("unknown property {prop}");
+            crate::diag!("unknown property {prop}");
             2
         }
     }
@@ -45,14 +47,14 @@ pub fn replay_file(ctx: Ctx, path: &str, f: impl Fn(&Value, &mut Stats)) -> i32 
     let txt = match std::fs::read_to_string(path) {
         Ok(t) => t,
         Err(e) => {
-            eprintln!("machinery: cannot read replay file {path}: {e}");
+            crate::diag!("machinery: cannot read replay file {path}: {e}");
             return 2;
         }
     };
     let v: Value = match serde_json::from_str(&txt) {
         Ok(v) => v,
         Err(e) => {
-            eprintln!("machinery: replay file is not JSON: {e}");
+            crate::diag!("machinery: replay file is not JSON: {e}");
             return 2;
         }
     };
@@ -65,7 +67,7 @@ pub fn replay_file(ctx: Ctx, path: &str, f: impl Fn(&Value, &mut Stats)) -> i32 
     let sa: Vec<&String> = a.viols.iter().map(|v| &v.sig).collect();
     let sb: Vec<&String> = b.viols.iter().map(|v| &v.sig).collect();
     if sa != sb {
-        eprintln!("MACHINERY-ERROR: replay is not deterministic: {sa:?} vs {sb:?}");
+        crate::diag!("MACHINERY-ERROR: replay is not deterministic: {sa:?} vs {sb:?}");
         return 2;
     }
     if a.viols.is_empty() {
@@ -82,7 +84,7 @@ pub fn replay_file(ctx: Ctx, path: &str, f: impl Fn(&Value, &mut Stats)) -> i32 
 
 pub fn selftest() -> i32 {
     if let Err(e) = crate::reference::crc32::selftest() {
-        eprintln!("selftest: crc32: {e}");
+        crate::diag!("selftest: crc32: {e}");
         return 2;
     }
     println!("selftest ok");
